@@ -85,6 +85,7 @@ type lockExtract struct {
 	exported map[string]bool // entry with nothing held
 	fieldTy  map[string]string
 	locks    map[string]bool
+	acq      map[string]int // "func|lock" -> acquisition sites in the function's own body
 }
 
 func typeName(t types.Type) string {
@@ -277,6 +278,9 @@ func (w *walker) stmt(s ast.Stmt, held lockSet) lockSet {
 			if lock, op, ok := w.x.lockOp(call); ok {
 				w.x.locks[lock] = true
 				held = held.clone()
+				if (op == "Lock" || op == "RLock") && !w.inLit {
+					w.x.acq[w.fn+"|"+lock]++
+				}
 				switch op {
 				case "Lock":
 					held[lock] = true
@@ -418,6 +422,9 @@ func (w *walker) stmt(s ast.Stmt, held lockSet) lockSet {
 	return held
 }
 
+// lastLockAcq: acquisition sites per "func|lock" of the last extraction.
+var lastLockAcq map[string]int
+
 // LockRow: one line of the generated table.
 type LockRow struct {
 	Field string   `json:"field"`
@@ -463,7 +470,7 @@ func extractLocks(dir, pkgPath string, targets []string) ([]LockRow, error) {
 		return nil, fmt.Errorf("type check %s: %w", pkgPath, err)
 	}
 	x := &lockExtract{fset: fset, info: info, targets: map[string]bool{}, funcs: map[string]bool{}, exported: map[string]bool{},
-		fieldTy: map[string]string{}, locks: map[string]bool{}}
+		fieldTy: map[string]string{}, locks: map[string]bool{}, acq: map[string]int{}}
 	for _, t := range targets {
 		x.targets[t] = true
 	}
@@ -548,6 +555,7 @@ func extractLocks(dir, pkgPath string, targets []string) ([]LockRow, error) {
 	for fn := range top {
 		entry[fn] = lockSet{}
 	}
+	lastLockAcq = x.acq
 	seen := map[string]bool{}
 	var rows []LockRow
 	for _, a := range x.accesses {
